@@ -9,6 +9,14 @@ CHECKS = {
    "seeded search over world-A histories (which reports reach the aggregator, order, duplicates, replayed copies; per-client OS entropy; three randomness sources incl. a simulated PPOPRF exchange); for each group with >= t distinct delivered points a drawn selection (t distinct + repeats + surplus, permuted) is decoded from wire bytes and must recover; every delivered report must decrypt to exactly its client's measurement and aux. Sampling, not proof.",
    "trusts strobe-rs, curve25519-dalek, serde/bincode, the vendored getrandom seam and the harness's independent layout parser; assumes no two honest clients draw the same 129-bit point",
    "deterministic simulation with fault injection (drop/dup/reorder/delay/replay), seeded schedule search, ideal-functionality oracle"),
+ "C08": ("fault_enumeration", "DESIGN.md §4 C08",
+   "every honest report / adss share / sharks share that crosses the simulated wire must decode to the sender's value and follow the documented layout as read by an independent parser; around each honest encoding the transport's fault set is enumerated (every prefix, every boundary value in each length/threshold field, 4 byte faults per offset, out-of-range field elements per slot, extensions, splices, garbage) and the real decoders must agree with the parser on accept/reject and on the canonical re-encoding. Enumeration is complete per honest message for the listed fault kinds; the honest messages themselves are sampled.",
+   "trusts the ~150-line independent parser (models/layout.rs, num-bigint); decoder panics are counted and left to C09",
+   "deterministic simulation with fault injection; differential oracle against an independent layout parser; per-message fault enumeration"),
+ "C09": ("fault_enumeration", "DESIGN.md §4 C09",
+   "every receiver entry point named by the property runs as a simulated node under catch_unwind while the transport corrupts EVERY delivery (10 byte-level kinds), enumerates boundary values of every length/threshold field and short prefixes, and substitutes structurally valid degenerate values (shares without y, x=0, thresholds 0 and 2^32-1, undecodable group elements in each position of a public key / evaluation / request, missing proof, non-base64 and empty lines); corrupted-but-accepted values flow on into recovery and verification. Oracle: no unwind. Built with overflow-checks so arithmetic overflow counts.",
+   "aborts cannot be caught in-process: the wrapper treats an abnormal exit as a violation; Client::unblind and Point::from(&[u8]) are outside the property's list",
+   "deterministic simulation with fault injection; crash oracle (catch_unwind per receiver callback); fault enumeration per delivery"),
 }
 NA = {
  "C07": "pure function of two operands: no party, message, state, fault, schedule or entropy for a simulator to own (DESIGN.md §4 C07); operand generation against big integers would be property-based testing, not this technique",
